@@ -155,11 +155,12 @@ impl Reg {
 
     pub fn set_num(&mut self, q_num: N) {
         let q_size = 1_usize << q_num;
+        let shrink = q_num < self.q_num;
         self.q_num = q_num;
         self.q_mask = q_size.wrapping_sub(1_usize);
-        self.psi.resize(q_size, C_ZERO);
+        self.psi.resize(q_size.max(MIN_BUFFER_LEN), C_ZERO);
 
-        if q_num < self.q_num {
+        if shrink {
             self.reset(0);
         }
     }
@@ -167,14 +168,15 @@ impl Reg {
     #[doc(hidden)]
     pub(crate) fn set_num_no_realloc(&mut self, q_num: N) {
         let q_size = 1_usize << q_num;
+        let shrink = q_num < self.q_num;
         self.q_num = q_num;
         self.q_mask = q_size.wrapping_sub(1_usize);
 
-        if q_num < self.q_num {
+        if shrink {
+            unsafe { self.psi.set_len(q_size.max(MIN_BUFFER_LEN)) };
             self.reset(0);
-            unsafe { self.psi.set_len(q_size) };
         } else {
-            self.psi.resize(q_size, C_ZERO);
+            self.psi.resize(q_size.max(MIN_BUFFER_LEN), C_ZERO);
         }
     }
 
